@@ -730,7 +730,15 @@ pub fn arb_tree(cfg: TreeCfg) -> BoxedStrategy<Tree> {
             2 => inner.clone().prop_map(|t| Tree::Seq(Box::new(t))),
             3 => proptest::collection::vec(inner.clone(), 0..=width).prop_map(Tree::Tuple),
             1 => proptest::collection::vec(inner.clone(), 30..=40).prop_map(Tree::Tuple),
-            2 => (inner.clone(), inner.clone()).prop_map(|(k, v)| Tree::Map(Box::new(k), Box::new(v))),
+            1 => (inner.clone(), inner.clone()).prop_map(|(k, v)| Tree::Map(Box::new(k), Box::new(v))),
+            // string-keyed maps, the key optionally behind 1-3 newtype wrappers
+            2 => (0usize..4, arb_tree_name(), inner.clone()).prop_map(|(wraps, n, v)| {
+                let mut k = Tree::String;
+                for _ in 0..wraps {
+                    k = Tree::Struct(n.clone(), TData::Newtype(Box::new(k)));
+                }
+                Tree::Map(Box::new(k), Box::new(v))
+            }),
             5 => (arb_tree_name(), arb_tdata(inner.clone(), width)).prop_map(|(n, d)| Tree::Struct(n, d)),
             5 => (arb_tree_name(), proptest::collection::vec((arb_tree_name(), arb_tdata(inner.clone(), width)), 0..=width))
                 .prop_map(|(n, vs)| Tree::Enum(n, vs)),
@@ -762,4 +770,37 @@ pub fn arb_deep_or_wide(k: usize, w: usize) -> BoxedStrategy<Tree> {
         }),
     ]
     .boxed()
+}
+
+/// A tree containing two subtrees of identical shape whose struct/enum type names differ
+/// (same wire format and same key, different types).
+pub fn arb_same_shape_pair(cfg: TreeCfg) -> BoxedStrategy<Tree> {
+    fn rename(t: &Tree, suffix: &str) -> Tree {
+        let d = |d: &TData| match d {
+            TData::Unit => TData::Unit,
+            TData::Newtype(i) => TData::Newtype(Box::new(rename(i, suffix))),
+            TData::Tuple(ts) => TData::Tuple(ts.iter().map(|t| rename(t, suffix)).collect()),
+            TData::Struct(fs) => TData::Struct(fs.iter().map(|(n, t)| (n.clone(), rename(t, suffix))).collect()),
+        };
+        match t {
+            Tree::Option(i) => Tree::Option(Box::new(rename(i, suffix))),
+            Tree::Seq(i) => Tree::Seq(Box::new(rename(i, suffix))),
+            Tree::Tuple(ts) => Tree::Tuple(ts.iter().map(|t| rename(t, suffix)).collect()),
+            Tree::Map(k, v) => Tree::Map(Box::new(rename(k, suffix)), Box::new(rename(v, suffix))),
+            Tree::Struct(n, dd) => Tree::Struct(format!("{}{}", n, suffix), d(dd)),
+            Tree::Enum(n, vs) => Tree::Enum(format!("{}{}", n, suffix), vs.iter().map(|(vn, dd)| (vn.clone(), d(dd))).collect()),
+            other => other.clone(),
+        }
+    }
+    (arb_tree(cfg), arb_tree(cfg), 0..4u8)
+        .prop_map(|(a, filler, form)| {
+            let b = rename(&a, "2");
+            match form {
+                0 => Tree::Tuple(vec![a, b]),
+                1 => Tree::Struct("Pair".into(), TData::Struct(vec![("first".into(), a), ("gap".into(), filler), ("second".into(), b)])),
+                2 => Tree::Enum("Either".into(), vec![("L".into(), TData::Newtype(Box::new(a))), ("R".into(), TData::Newtype(Box::new(b)))]),
+                _ => Tree::Map(Box::new(Tree::String), Box::new(Tree::Tuple(vec![filler, a, Tree::Seq(Box::new(b))]))),
+            }
+        })
+        .boxed()
 }
